@@ -795,8 +795,14 @@ impl<'a> Visitor<'a> {
     ///
     /// <https://sass-lang.com/documentation/at-rules/import#finding-the-file>
     /// <https://sass-lang.com/documentation/at-rules/import#load-paths>
-    #[allow(clippy::cognitive_complexity, clippy::redundant_clone)]
     pub fn find_import(&self, path: &Path) -> Option<PathBuf> {
+        self.find_import_like(path, true)
+    }
+
+    /// Import-only files (`name.import.scss`) are candidates only when the load comes from
+    /// `@import`; `@use`, `@forward` and `meta.load-css()` never see them.
+    #[allow(clippy::cognitive_complexity, clippy::redundant_clone)]
+    fn find_import_like(&self, path: &Path, for_import: bool) -> Option<PathBuf> {
         let path_buf = if path.is_absolute() {
             path.into()
         } else {
@@ -836,9 +842,11 @@ impl<'a> Visitor<'a> {
         macro_rules! try_path_with_extensions {
             ($path:expr) => {
                 let path = $path;
-                try_path!(with_suffix(&path, "import.sass"));
-                try_path!(with_suffix(&path, "import.scss"));
-                try_path!(with_suffix(&path, "import.css"));
+                if for_import {
+                    try_path!(with_suffix(&path, "import.sass"));
+                    try_path!(with_suffix(&path, "import.scss"));
+                    try_path!(with_suffix(&path, "import.css"));
+                }
                 try_path!(with_suffix(&path, "sass"));
                 try_path!(with_suffix(&path, "scss"));
                 try_path!(with_suffix(&path, "css"));
@@ -856,7 +864,9 @@ impl<'a> Visitor<'a> {
             ($path:expr) => {
                 let path_buf: PathBuf = $path;
                 if let Some(extension) = explicit_extension {
-                    try_path!(path_buf.with_extension(format!("import.{}", extension)));
+                    if for_import {
+                        try_path!(path_buf.with_extension(format!("import.{}", extension)));
+                    }
                     try_path!(path_buf);
                 } else {
                     try_path_with_extensions!(path_buf.clone());
@@ -893,10 +903,10 @@ impl<'a> Visitor<'a> {
     fn import_like_node(
         &mut self,
         url: &str,
-        _for_import: bool,
+        for_import: bool,
         span: Span,
     ) -> SassResult<StyleSheet> {
-        if let Some(name) = self.find_import(url.as_ref()) {
+        if let Some(name) = self.find_import_like(url.as_ref(), for_import) {
             let name = self.options.fs.canonicalize(&name).unwrap_or(name);
             if let Some(style_sheet) = self.import_cache.get(&name) {
                 return Ok(style_sheet.clone());
